@@ -1,6 +1,9 @@
 ----------------------------- MODULE Gen_Parser -----------------------------
 (* C01: bounded universes of chunk sequences (balanced or not).  Every       *)
-(* reachable state is one input; it grows by one chunk per step.  For each   *)
+(* reachable state is one input; it grows by one chunk per step (chunk       *)
+(* universes) or by one whole line per step (line universes "nest*": list    *)
+(* depth changing from line to line while an element / a table opened in a   *)
+(* list item is still open).  For each                                       *)
 (*   M  (MachineOK) the repaired machine never gets stuck (dispatch          *)
 (*      totality), its terminal tree is WellFormed (WikiTree.tla) and no     *)
 (*      open-node state is left behind;                                      *)
@@ -53,10 +56,92 @@ HtmlTable == [t \in ModelledTags |->
                 closenext |-> SetToSeq(CloseNext(t)), noend |-> NoEndTag(t)]]
 ASSUME PrintT(<<"HTMLTABLE", ToJson(HtmlTable)>>)
 
+(* Line-structured universes ("nest*"): the input grows by one whole LINE per  *)
+(* step (MaxLen = number of lines).  A line is a list prefix (depth 0..n) and  *)
+(* a body that opens an HTML element and leaves it open at the end of the     *)
+(* line, closes one as the first token of the line or in running text, starts *)
+(* / continues / ends a table, or is plain / empty.  This is the dimension    *)
+(* the chunk universes keep short (a 3-line document of this kind has 7..14   *)
+(* chunks): the list depth changes from line to line WHILE an element or a    *)
+(* table opened inside an item is still open, so that stacks of the form      *)
+(*   ROOT > LIST > LIST_ITEM > HTML > LIST > LIST_ITEM                        *)
+(*   ROOT > LIST > LIST_ITEM > HTML ref > TABLE > LIST > LIST_ITEM            *)
+(* are reached and every beginning-of-line handler runs on them: closing the  *)
+(* pending lists (close_begline_lists / pop_until_nth_list) then also closes  *)
+(* the very container the token refers to, and what the handler decided       *)
+(* before must still hold afterwards (Parser.tla takes every such decision on *)
+(* the state AFTER the lists were closed; the machine is never stuck).        *)
+(*   nest   3 lines, prefixes "", *, **; tags span, ref              (quick)  *)
+(*   nestW  3 lines, prefixes "", *, **, *:; tags span, ref, div  (thorough)  *)
+(*   nestL  4 lines, prefixes "", *, **; tag span                 (thorough)  *)
+(*   nestB  3 lines, table tokens / rule / div after every prefix (thorough)  *)
+(*   nestR  4 lines, explicit vocabulary: <ref> in and outside a list item,   *)
+(*          table tokens at the line start, list lines         (both tiers)   *)
+\* family, and the part of the family this run enumerates (the first line selects the part, so
+\* that a family can be spread over several TLC runs)
+LineU ==
+  CASE Universe = "nest"   -> [fam |-> "nest", part |-> 0, of |-> 1]
+    [] Universe = "nestW1" -> [fam |-> "nestW", part |-> 0, of |-> 4]
+    [] Universe = "nestW2" -> [fam |-> "nestW", part |-> 1, of |-> 4]
+    [] Universe = "nestW3" -> [fam |-> "nestW", part |-> 2, of |-> 4]
+    [] Universe = "nestW4" -> [fam |-> "nestW", part |-> 3, of |-> 4]
+    [] Universe = "nestL"  -> [fam |-> "nestL", part |-> 0, of |-> 1]
+    [] Universe = "nestB"  -> [fam |-> "nestB", part |-> 0, of |-> 1]
+    [] Universe = "nestR"  -> [fam |-> "nestR", part |-> 0, of |-> 1]
+    [] OTHER -> [fam |-> "", part |-> 0, of |-> 1]
+IsLineUniverse == LineU.fam # ""
+LinePrefixes ==
+  CASE LineU.fam = "nestW" -> << <<>>, <<"*">>, <<"*", "*">>, <<"*", ":">> >>
+    [] OTHER -> << <<>>, <<"*">>, <<"*", "*">> >>
+\* (start tag, end tag) chunk pairs
+LineTags ==
+  CASE LineU.fam = "nestW" -> << <<"SPAN", "ESPAN">>, <<"REF", "EREF">>, <<"DIV", "EDIV">> >>
+    [] LineU.fam = "nestL" -> << <<"SPAN", "ESPAN">> >>
+    [] LineU.fam = "nestB" -> << <<"DIV", "EDIV">> >>
+    [] OTHER -> << <<"SPAN", "ESPAN">>, <<"REF", "EREF">> >>
+TagBodies(t) ==
+  IF LineU.fam = "nestL"
+  THEN << <<"W", t[1]>>, <<t[2], "W">>, <<"W", t[2]>> >>
+  ELSE IF LineU.fam = "nestB" \/ (LineU.fam = "nest" /\ t[1] = "REF")
+  THEN << <<"W", t[1]>>, <<t[2], "W">> >>
+  ELSE << <<"W", t[1]>>,      \* opened in running text, still open at the end of the line
+          <<t[1], "W">>,      \* start tag as the first token of the line
+          <<t[2], "W">>,      \* end tag as the first token of the line
+          <<"W", t[2]>> >>    \* end tag in running text
+RECURSIVE AllTagBodies(_)
+AllTagBodies(i) == IF i > Len(LineTags) THEN <<>> ELSE TagBodies(LineTags[i]) \o AllTagBodies(i + 1)
+\* nestB: the other containers a list item can hold open across lines (a table and its
+\* parts) and the other beginning-of-line tokens that close lists and then pop "until ..."
+PlainBodies ==
+  CASE LineU.fam = "nestL" -> << <<"W">> >>
+    [] LineU.fam = "nestB" -> << <<"W">>, <<"TS">>, <<"TE">>, <<"TR">>, <<"VB", "W">>, <<"HR">> >>
+    [] OTHER -> << <<>>, <<"W">> >>
+LineBodies == PlainBodies \o AllTagBodies(1)
+\* the line vocabulary of a family: prefixes x bodies, or listed explicitly.
+\* nestR: a TABLE can be held open inside a list item only behind the <ref> shield of
+\* close_begline_lists (a "{|" after a list prefix is text, and at the line start it closes the
+\* lists first); with a deeper list inside that table the stack is
+\*   ROOT > LIST > LIST_ITEM > HTML ref > TABLE (> ROW > CELL) > LIST > LIST_ITEM
+\* and the table tokens at the line start close the lists AND the table they belong to.
+LineSeq ==
+  IF LineU.fam = "nestR"
+  THEN << <<"*", "W", "REF">>, <<"W", "REF">>, <<"TS">>, <<"TE">>, <<"TR">>, <<"VB", "W">>,
+          <<"*", "W">>, <<"*", "*", "W">>, <<"EREF", "W">>, <<"W">> >>
+  ELSE [k \in 1..(Len(LinePrefixes) * Len(LineBodies)) |->
+          LinePrefixes[((k - 1) \div Len(LineBodies)) + 1] \o LineBodies[((k - 1) % Len(LineBodies)) + 1]]
+NumLines(d) == IF d = <<>> THEN 0 ELSE 1 + Len(SelectSeq(d, LAMBDA c : c = "NL"))
+
 VARIABLES doc
 Init == doc = <<>>
-Next == /\ Len(doc) < MaxLen
-        /\ \E c \in Chunks : doc' = Append(doc, c)
+NextChunk == /\ Len(doc) < MaxLen
+             /\ \E c \in Chunks : doc' = Append(doc, c)
+NextLine == /\ NumLines(doc) < MaxLen
+            /\ \E k \in 1..Len(LineSeq) :
+                 LET l == LineSeq[k] IN
+                 /\ doc # <<>> \/ (l # <<>>          \* (a leading blank line adds nothing)
+                                   /\ k % LineU.of = LineU.part)
+                 /\ doc' = IF doc = <<>> THEN l ELSE doc \o <<"NL">> \o l
+Next == IF IsLineUniverse THEN NextLine ELSE NextChunk
 Spec == Init /\ [][Next]_doc
 
 \* what parse() leaves behind / returns, as far as the property constrains it
